@@ -12,11 +12,17 @@ import json, subprocess
 def show(stage):
     try: return json.loads(subprocess.check_output(['git','show',f':{stage}:known-findings.json'], stderr=subprocess.DEVNULL))
     except Exception: return None
-ours, theirs = show(2), show(3)
+base, ours, theirs = show(1), show(2), show(3)
 if ours and theirs:
-    ids = {f['id'] for f in ours['findings']}
-    for f in theirs['findings']:
-        if f['id'] not in ids: ours['findings'].append(f)
+    base = base or {"findings": [], "fixed": []}
+    props = {f['property'] for k in (base, ours, theirs) for f in k['findings']}
+    def of(k, p): return [f for f in k['findings'] if f['property'] == p]
+    out = []
+    for p in sorted(props):
+        # per property: the side that changed the list relative to the merge base wins (a branch that moved its
+        # findings to `fixed` must not get them back from the other side)
+        out += of(theirs, p) if of(theirs, p) != of(base, p) else of(ours, p)
+    ours['findings'] = out
     for x in theirs.get('fixed', []):
         if x not in ours.setdefault('fixed', []): ours['fixed'].append(x)
     json.dump(ours, open('known-findings.json','w'), indent=1)
